@@ -28,8 +28,10 @@ enum CallId { C_SOCKET = 1, C_BIND, C_LISTEN, C_CONNECT, C_ACCEPT, C_SEND, C_REC
         G->trace(callid, _v < 0 ? -errno : (_v > 0 ? 1 : 0)); \
         return _v;                                        \
     } while (0)
+static void note_eagain(int callid);
 #define KERR(callid, e)      \
     do {                     \
+        if ((e) == EAGAIN) note_eagain(callid); \
         errno = (e);         \
         G->trace(callid, -(e)); \
         return -1;           \
@@ -149,11 +151,20 @@ static void child_check(const char *what, int fd) {
         G->violation("C08.cleanup_touched_owner", "xcm_cleanup in a forked child performed %s (descriptor %d): the owner's %s is altered", what, fd,
                      !strncmp(what, "epoll_ctl", 9) ? "epoll instance (shared open file description)" : !strncmp(what, "unlink", 6) ? "file" : !strncmp(what, "timerfd", 7) ? "timer (shared open file description)" : "connection");
 }
+// C05: one API call on a non-blocking socket that keeps retrying a system call which keeps answering EAGAIN is waiting for an
+// external event just as a sleeping one is (it merely burns the processor meanwhile). No XCM call has a reason to see more than
+// a handful of EAGAINs (one per descriptor it serves); the bound is far above that.
+static void note_eagain(int callid) {
+    Task *t = cur();
+    if (!t || t->api_depth <= 0 || !t->api_nonblocking || !G) return;
+    if (++t->api_eagains == 300)
+        G->violation("C05.busy_wait", "inside one %s on a non-blocking socket 300 system calls were answered EAGAIN (last: call id %d): the call retries instead of returning; call chain: %s", t->api_name, callid, lib_call_chain().c_str());
+}
 // C05: a call that may sleep, issued inside an API call on a non-blocking XCM socket
 static void maysleep_check(const char *what) {
     Task *t = cur();
     if (t && t->api_depth > 0 && t->api_nonblocking)
-        G->violation("C05.may_sleep", "%s (may sleep) called inside %s on a non-blocking socket", what, t->api_name);
+        G->violation("C05.may_sleep", "%s (may sleep) called inside %s on a non-blocking socket; call chain: %s", what, t->api_name, lib_call_chain().c_str());
 }
 
 // ------------------------------------------------------------------ kernel object basics
@@ -995,6 +1006,18 @@ int close(int fd) {
     }
     foreign_check(&i->second, fd, "close");
     auto f = i->second.f;
+    if (auto ts = std::dynamic_pointer_cast<TcpSock>(f)) {
+        // SO_LINGER with a non-zero time: close() of a connected socket waits until the FIN is acknowledged (or the time is up),
+        // whatever O_NONBLOCK says (inet_release -> tcp_close -> sk_stream_wait_close)
+        int secs = ts->opt(SOL_SOCKET, 0x7f01, 0);
+        if (f->open_fds <= 1 && ts->st == TcpSock::EST && ts->opt(SOL_SOCKET, SO_LINGER, 0) && secs > 0) {
+            maysleep_check("close() of a connected TCP socket with SO_LINGER set");
+            Time w = std::min<Time>((Time)secs * SEC, 2 * K->latency_for(ts->remote) + US);
+            block_until([] { return false; }, G->now + w, "lingering close");
+            i = tab.find(fd);
+            if (i == tab.end()) KERR(C_CLOSE, EBADF);
+        }
+    }
     tab.erase(i);
     for (auto &w : K->epolls)
         if (auto ep = w.lock()) {
@@ -1094,6 +1117,7 @@ int setsockopt(int fd, int level, int name, const void *val, socklen_t len) {
         if (level == IPPROTO_IP && s->family != AF_INET && name == IP_TOS) { /* accepted on v6 sockets too */ }
         foreign_check(e, fd, "setsockopt");
         s->opts[(level << 16) | name] = v;
+        if (level == SOL_SOCKET && name == SO_LINGER) { int secs = 0; if (len >= 2 * sizeof(int)) memcpy(&secs, (const char *)val + sizeof(int), sizeof(int)); s->opts[(SOL_SOCKET << 16) | 0x7f01] = secs; }
         G->kmut++;
         KRET(C_SSO, 0);
     }
